@@ -6,3 +6,8 @@ cd "$(dirname "$0")"
 export CARGO_NET_OFFLINE=true
 (cd coq && coq_makefile -f _CoqProject -o Makefile && timeout 3000 make -j16)
 (cd harness && cargo build --offline)
+# C19 runs the built `iwe` binary (the harness rebuilds it on every check; this only warms the cache):
+# built from the repository the harness' liwe dependency points to, into harness/target/iwe-bin
+VERIF_DIR="$(pwd -P)"
+REPO_DIR="$(sed -n 's/^liwe *= *{ *path *= *"\(.*\)\/crates\/liwe".*/\1/p' harness/Cargo.toml)"
+(cd "${REPO_DIR:-/repo}" && cargo build --offline -p iwe --target-dir "$VERIF_DIR/harness/target/iwe-bin")
